@@ -4,6 +4,37 @@ import json, os
 from lib import vlib
 
 
+CONF_CFG = """CONSTANTS MaxRetx = %d
+  MaxPeerMsgs = 99
+  IgnoreAfterDone = TRUE
+INIT TInit
+NEXT TNext
+INVARIANT NotDone
+CONSTRAINT HW
+POSTCONDITION Post
+CHECK_DEADLOCK FALSE
+"""
+
+
+def conformance(ctx, lines):
+    """Hook-level conformance: each scenario's merged log (scripted peer + internal events of
+    handshake() / handleCEA) must be a behaviour of spec/HandshakeImpl.tla for its budget."""
+    out = dict(status="conforms", scenarios=0, tlc_states=0, drift=[])
+    for b in sorted(set(l["script"]["budget"] for l in lines)):
+        scen = [dict(case=l["script"], events=l["events"]) for l in lines if l["script"]["budget"] == b and l.get("conform") and l["events"]]
+        if not scen:
+            continue
+        r = vlib.impl_conformance(ctx, "HandshakeImplTrace", CONF_CFG % b, scen, [("ev", ""), ("k", "")], "hs%d" % b)
+        if r["status"] == "inconclusive":
+            return r
+        out["scenarios"] += r["scenarios"]; out["tlc_states"] += r["tlc_states"]; out["drift"] += r["drift"]
+    out["drift"] = out["drift"][:5]
+    if out["drift"]:
+        out["status"] = "drift"
+    ctx.log("impl conformance: %d scenarios replayed against HandshakeImpl (%d TLC states), %d drifted" % (out["scenarios"], out["tlc_states"], len(out["drift"])))
+    return out
+
+
 def run(ctx):
     quick = ctx.tier == "quick"
     r1 = vlib.tlc_check(ctx.scratch, "HandshakeImpl", "HandshakeImpl_r1.cfg", workers=4)
@@ -22,7 +53,8 @@ def run(ctx):
     if p.returncode != 0:
         raise vlib.Infra("handshake driver failed: " + p.stderr[-2000:])
     lines = vlib.read_ndjson(tpath)
-    bad, st = vlib.tlc_validate(ctx.scratch, "HandshakeTrace", "HandshakeTrace.cfg", lines, timeout=900)
+    bad, st = vlib.tlc_validate(ctx.scratch, "HandshakeTrace", "HandshakeTrace.cfg", [dict(l, events=[]) for l in lines], timeout=900)
+    conf = conformance(ctx, lines)
     ctx.log("R2: %d scripts; R3: %d scenarios on the real client, %d rejected" % (len(cases), len(lines), len(bad)))
     # a failed positive deadline is re-run once in isolation before it is reported
     retry = [lines[i]["script"] for i, _ in bad][:12]
@@ -34,7 +66,7 @@ def run(ctx):
             vlib.write_ndjson(cpath + ".one", [sc])
             p = vlib.run_harness(ctx.harness, ["handshake", "-cases", cpath + ".one", "-out", tpath + ".one", "-seed", str(ctx.seed), "-repo", vlib.REPO], timeout=600)
             lines2 += vlib.read_ndjson(tpath + ".one")
-        bad2, _ = vlib.tlc_validate(ctx.scratch, "HandshakeTrace", "HandshakeTrace.cfg", lines2, timeout=900)
+        bad2, _ = vlib.tlc_validate(ctx.scratch, "HandshakeTrace", "HandshakeTrace.cfg", [dict(l, events=[]) for l in lines2], timeout=900)
         confirmed = set(json.dumps(lines2[i]["script"], sort_keys=True) for i, _ in bad2)
         bad = [(i, w) for i, w in bad if json.dumps(lines[i]["script"], sort_keys=True) in confirmed]
         ctx.log("re-run in isolation: %d of %d rejections confirmed" % (len(bad), len(retry)))
@@ -53,7 +85,7 @@ def run(ctx):
                     "x extras after completion (duplicate success, late failure, late malformed; sequences up to the bound) followed by an application answer; replayed on a real sm.Client over memnet with a count-driven peer (40 ms interval). "
                     "non-trivial = a retransmission, a failure or an extra answer; distinct by script",
                samples=[dict(script=l["script"], obs={k: l["obs"][k] for k in ("ncer", "mingap", "dial_ok", "errclass", "closed_end", "app_dispatched")}) for l in lines[0:len(lines):max(1, len(lines) // 3)]][:3],
-               exhaustive=True, r1_states=r1["distinct"], rejected=len(bad), known_finding_hits={k: n for k, (n, _) in v.hits.items()})
+               exhaustive=True, r1_states=r1["distinct"], rejected=len(bad), impl_conformance=conf, known_finding_hits={k: n for k, (n, _) in v.hits.items()})
     rc = v.finish()
     vlib.write_evidence("C12", ctx.tier, ctx.seed, cov, ctx.wall(), v.nviol,
                         ["timers are nondeterministic steps in the model; on the code, spacing is checked one-sidedly from monotonic stamps and peers never act at a timer boundary",
